@@ -54,6 +54,30 @@ def unit_quoter(U):
     U.prove("C08.quoter.char", "for every code point c: quoter[c] == '%%%02X' % ord(c) if c is reserved (tab LF CR % ; = & , C0 controls DEL) else c, and unquote(quoter[c]) == c   [exhaustive, 1 114 112 code points]",
             [], z3.BoolVal(not bad and res == want_res), {}, replay=lambda m: {"observed": bad[:3], "violates": bool(bad) or res != want_res})
     U.notes.append("quoter lemma: %d code points checked natively on the real parser.quoter" % n)
+    quoter_after_switch(U, "C08")
+
+
+def quoter_after_switch(U, prefix):
+    """the escape table is a function of the character under the DEFAULT setting whatever was printed before under
+    constants.ignore_url_escape_characters = True (the switch is read when a line is printed, it is not baked into the table)"""
+    want_res = set("\n\t\r%;=&,") | {chr(i) for i in range(32)} | {chr(127)}
+    probe = "".join(sorted(want_res)) + "x\u00e9"
+    old = constants.ignore_url_escape_characters
+
+    def history():
+        constants.ignore_url_escape_characters = True
+        try:
+            line_on = str(F.Feature(seqid="c", start=1, end=2, attributes={"Note": ["50% a=b&c;d,e"]}))
+            str(F.Feature(seqid="c", start=1, end=2, attributes={"Note": [probe]}))
+        finally:
+            constants.ignore_url_escape_characters = old
+        f = F.feature_from_line("c\t.\tgene\t1\t2\t.\t+\t.\tNote=100%25;Alias=a%3Db%26c%2Cd")
+        return line_on, str(f).split("\t")[8], [c for c in sorted(want_res) if P.quoter[c] != "%%%02X" % ord(c)]
+    line_on, attr_off, bad = history()
+    ok = not bad and attr_off == "Note=100%25;Alias=a%3Db%26c%2Cd"
+    U.prove("%s.quoter.after_switch" % prefix, "after Features were printed with constants.ignore_url_escape_characters = True and the switch was set back, every reserved character is escaped again (a parsed line with %25 %3D %26 %2C prints as it was)",
+            [], z3.BoolVal(bool(ok)), {}, replay=lambda m: {"inputs": "print under ignore_url_escape_characters=True; restore; parse and print 'Note=100%25;Alias=a%3Db%26c%2Cd'",
+                                                       "expected": "Note=100%25;Alias=a%3Db%26c%2Cd", "observed": history()[1], "violates": history()[1] != "Note=100%25;Alias=a%3Db%26c%2Cd" or bool(history()[2])})
 
 
 def supplied_value(name, D):
@@ -279,7 +303,29 @@ def unit_nine_columns(U):
                         z3.BoolVal(bool(ok)), {}, replay=lambda mm, dname=dname, D=D: native_supplied(dname, D, (1, 2)))
 
 
-UNITS = [("quoter", unit_quoter), ("supplied.kv", _unit_supplied(("k=v", 'k="v"'))), ("supplied.sp", _unit_supplied(('k "v"', "k v"))), ("nine_columns", unit_nine_columns), ("inferred.gtf", unit_inferred_gtf), ("fresh_parse", unit_fresh_parse)]
+def unit_bounded_print_after_edit(U):
+    """Bounded: what is printed is the CURRENT mapping: a Feature that was printed / compared / hashed once and whose attribute
+    mapping (or dialect, or extra columns) is then edited IN PLACE prints the edited state, and that line re-parses to it"""
+    fails, cases = [], 0
+    for dname, D in A.dialects():
+        if not (dname.endswith("|norep") and dname.startswith(("k=v|", 'k "v"|'))):
+            continue
+        for first in ("str", "eq", "hash", "set"):
+            cases += 1
+            f = F.Feature(seqid="c", source="s", featuretype="t", start=1, end=2, attributes={"ID": ["a"], "Note": ["n1"]}, dialect=dict(D, order=["ID", "Note"]), extra=["x1"])
+            {"str": lambda: str(f), "eq": lambda: f == f, "hash": lambda: hash(f), "set": lambda: {f}}[first]()
+            f.attributes["Note"].append("n2")
+            f.attributes["Alias"] = ["al"]
+            del f.attributes["ID"]
+            f.extra.append("x2")
+            want = {"Note": ["n1", "n2"], "Alias": ["al"]}
+            g = F.feature_from_line(str(f), dialect=dict(D, order=["ID", "Note"]))
+            got = {k: list(v) for k, v in g.attributes.items()}
+            if got != want or list(g.extra) != ["x1", "x2"]:
+                fails.append({"case": {"dialect": dname, "first": first, "then": "append to Note, add Alias, delete ID, append an extra column - all in place"}, "expected": [want, ["x1", "x2"]], "observed": [got, list(g.extra)], "printed": str(f)})
+    U.bounded_result("C08.bounded.print_after_edit", "print -> edit the mapping in place -> print: the second line is that of the edited Feature and re-parses to it", "12 dialects x 4 first uses (str, ==, hash, set membership)", cases, fails)
+
+UNITS = [("bounded.print_after_edit", unit_bounded_print_after_edit), ("quoter", unit_quoter), ("supplied.kv", _unit_supplied(("k=v", 'k="v"'))), ("supplied.sp", _unit_supplied(('k "v"', "k v"))), ("nine_columns", unit_nine_columns), ("inferred.gtf", unit_inferred_gtf), ("fresh_parse", unit_fresh_parse)]
 try:
     from standins import C08 as _S
     UNITS = UNITS + list(_S.UNITS)
